@@ -232,20 +232,20 @@ func runHistory(t *testing.T, h history) runResult {
 		intern[s] = len(intern) + 1
 		return intern[s]
 	}
-	type tkey struct {
-		b   int
-		raw string
-	}
-	seen := map[tkey]bool{}
+	seen := map[string]bool{}
 	var tab []string
 	table := func(raw []byte) {
-		for _, b := range builders {
-			if !used[b.id] || seen[tkey{b.id, string(raw)}] {
-				continue
-			}
-			seen[tkey{b.id, string(raw)}] = true
-			tab = append(tab, "("+vh.Z(int64(b.id))+", "+vh.Bytes(raw)+", "+vh.Z(int64(cidID(mustSum(b.sum, raw))))+")")
+		if seen[string(raw)] {
+			return
 		}
+		seen[string(raw)] = true
+		var row []string
+		for _, b := range builders {
+			if used[b.id] {
+				row = append(row, "("+vh.Z(int64(b.id))+", "+vh.Z(int64(cidID(mustSum(b.sum, raw))))+")")
+			}
+		}
+		tab = append(tab, "("+vh.Bytes(raw)+", "+vh.List(row)+")")
 	}
 	var ops, obs []string
 	okErr := func(err error) string {
@@ -410,7 +410,10 @@ func genName(e *vh.Env) string {
 
 func genLink(e *vh.Env, allowBad bool) lnk {
 	r := e.Rng
-	l := lnk{name: genName(e), size: sizes[r.Intn(len(sizes))], c: linkCids[r.Intn(len(linkCids))]}
+	l := lnk{name: genName(e), size: sizes[r.Intn(len(sizes))], c: linkCids[r.Intn(6)]}
+	if r.Intn(5) == 0 {
+		l.c = linkCids[r.Intn(len(linkCids))]
+	}
 	if r.Intn(3) == 0 {
 		l.size = uint64(r.Intn(1 << 20))
 	}
@@ -703,9 +706,9 @@ func TestC11(t *testing.T) {
 		"Copy/UpdateNodeLink/re-decode, reads Cid/RawData/Links/Data/Tree/DecodeProtobuf interleaved) + 5 final reads, every answer compared; " +
 		"non-trivial = at least 3 mutations, 3 reads and one builder change; distinct by op sequence. " +
 		"Second stream: DecodeProtobuf on non-canonical / malformed encodings against the Coq decoder")
-	cs := vh.NewCases(e, "From V Require Import lib.C11_DagPb model.M_C11.\nOpen Scope Z_scope.", "case", "check_case", 200)
-	nRun := e.Pick(1400, 30000)
-	nDec := e.Pick(1000, 20000)
+	cs := vh.NewCases(e, "From V Require Import lib.C11_DagPb model.M_C11.\nOpen Scope Z_scope.", "case", "check_case", 250)
+	nRun := e.Pick(1000, 25000)
+	nDec := e.Pick(750, 15000)
 	hs := corpus()
 	for i := 0; i < nRun; i++ {
 		var h history
